@@ -10,7 +10,9 @@ MANIFEST = dict(
 
 MODULES = ["Gozod.Proofs.C01", "Gozod.Proofs.C01Methods"]
 THEOREMS = ["Gozod.C01." + t for t in ["c01_accept_iff", "c01_result", "c01_foreign_rejected", "c01_num_holds_spec", "c01_enum_iff", "isIntF_eq_spec",
-    "c01_methods_classified", "c01_methods_nonempty", "c01_opaque_methods"]]
+    "c01_methods_classified", "c01_methods_nonempty", "c01_opaque_methods",
+    "c01_float_multipleOf", "c01_float_cmp", "c01_float_nan_rejected", "c01_float_finite_iff", "c01_float_safe_iff", "c01_float_int"]] + [
+    "Gozod.FloatMul.implMultF_eq_specMultF", "Gozod.FloatMul.ofBits_rep"]
 
 def key(op, impl, M, S):
     kind = C.op_body(op).split(" ")[1]
